@@ -8,6 +8,8 @@ order independence (all/some permutations) and "nothing raises".
 
 Numeric part (a TEST, not a proof): pyais.filter.haversine against an independent 60-digit evaluation of the
 great-circle distance (unit vectors + atan2 in decimal arithmetic, no libm), see `numeric`."""
+import functools
+import inspect
 import itertools
 import math
 import os
@@ -23,7 +25,10 @@ GEN = ['GenTables.v', 'GenEnums.v']
 RULE = ('a case = (sentence list, chain of 1..5 filters, one order of the chain); sentences are generated payloads of all 27 '
         'message types (random bits at nominal length, crafted positions incl. lat/lon 0.0, 91/181, out-of-range latitudes, '
         'duplicates, position reports of types 1-4, 9, 11, 17, 18, 19, 21, 27 cut before/inside/between/after the coordinates, '
+        'carriers of a communication state (types 1-4, 9, 11, 18, 26) complete and cut before/inside the radio field, '
         'two-sentence messages, undecodable sentences in a separate malformed stream), decoded by IterMessages + decode(); '
+        'attribute names of NoneFilter and of the attribute-reading user predicates range over every field AND every computed '
+        'attribute (property / class constant, found by reflection over the class of each decoded message) and absent names; '
         'filter parameters are generated around the decoded positions incl. a threshold equal to the implementation\'s own '
         'haversine of a (reference, position) pair and its two float neighbours, grid edges equal to a position\'s '
         'coordinate and their float neighbours; every chain is run in all (<=3 filters; all lengths in the thorough tier) or '
@@ -32,15 +37,20 @@ RULE = ('a case = (sentence list, chain of 1..5 filters, one order of the chain)
 ASSUMPTIONS = [
     'a filter object belongs to one chain (FilterChain.__init__ links the objects it is given by mutation: objects are '
     'created fresh for every chain and every order)',
-    'filter parameters are finite ints/floats (no nan/inf); attribute names given to NoneFilter are message fields or '
-    'names that no message has (not methods)',
+    'filter parameters are finite ints/floats (no nan/inf); attribute names given to NoneFilter are message fields, computed '
+    'attributes (properties such as is_sotdma / is_itdma / communication_state_raw, class constants) or names that no message '
+    'has -- not methods, not names starting with an underscore',
+    'decoded-message shape (hypotheses coords_numeric, attr_reads_ok of the theorems; the extracted predicates are evaluated '
+    'on every really decoded message, internal error if one falls outside): lat/lon absent, None or numbers; reading any '
+    'attribute returns a value or raises TypeError/ValueError',
     'great-circle distance = distance on the sphere of radius 6371 km (the constant of the implementation); haversine is '
     'required to agree with it to 1e-6 km, and to 1e-3 km where the haversine form is ill-conditioned (within 1 km of the '
     'antipode, or a latitude outside [-90, 90], which a 27-bit latitude field can carry)',
     'user predicates of the correspondence check are the six lambdas of Model/Filter.v upred (the theorems hold for any)',
 ]
 TRUSTED_EXTRA = [
-    'Spec/FilterSpec.v is written from the property text; coq/Prim/PyObj.v models hasattr/getattr/is None/truthiness/'
+    'Spec/FilterSpec.v is written from the property text (a computed attribute that cannot be evaluated for a message is '
+    'not present); coq/Prim/PyObj.v models hasattr/getattr (reading may raise)/is None/truthiness/'
     'numeric comparison of attribute values by hand; coq/Prim/Rat.v compares ints/floats as exact rationals',
     'NOT PROVED, tested on every run: pyais.filter.haversine (libm, binary64) = great-circle distance within the stated '
     'tolerance and raises nothing on real arguments; the reference is 60-digit decimal arithmetic in this file '
@@ -112,19 +122,83 @@ def value_token(v):
     return 'o1' if v else 'o0'
 
 
+# Computed attributes: what a decoded message offers to getattr() besides the fields of asdict() -- Python properties
+# (is_sotdma, is_itdma, communication_state_raw of CommunicationStateMixin), cached properties, class constants.  Found by
+# REFLECTION over the class of every message the harness decodes (never from a hand-written list); methods and names
+# starting with an underscore are left out (see ASSUMPTIONS).
+_COMPUTED_OF_CLASS = {}
+COMPUTED_SEEN = {}           # name -> set of outcomes seen on pool messages ('value' / 'None' / exception class name)
+
+
+def computed_names(m):
+    if isinstance(m, Synth):
+        return list(m._computed)
+    cls = type(m)
+    names = _COMPUTED_OF_CLASS.get(cls)
+    if names is None:
+        fields = set(m.asdict())
+        names = []
+        for name in dir(cls):
+            if name.startswith('_') or name in fields:
+                continue
+            a = inspect.getattr_static(cls, name)
+            if isinstance(a, (property, functools.cached_property)) or \
+                    not (callable(a) or isinstance(a, (classmethod, staticmethod))):
+                names.append(name)
+        _COMPUTED_OF_CLASS[cls] = names
+    return names
+
+
+def read_token(m, name):
+    """What evaluating m.<name> does: the value's token, or 'x' + the class name of the exception raised.
+    -> (token or None when the value has no token (nan/inf), exception or None)"""
+    try:
+        v = getattr(m, name)
+    except RecursionError:
+        raise
+    except Exception as e:
+        return 'x' + type(e).__name__, e
+    return value_token(v), None
+
+
 def msg_token(m):
-    """The model's view of a decoded message: msg_type + every attribute of asdict() as None / exact number / other."""
+    """The model's view of a decoded message: msg_type + what reading every attribute does -- every field of asdict() and
+    every computed attribute as None / exact number / other / raises <ExceptionClass>."""
     parts = [str(int(m.msg_type))]
-    for k in m.asdict():
-        tok = value_token(getattr(m, k))
+    fields = list(m.asdict())
+    for k in fields + [c for c in computed_names(m) if c not in fields]:
+        tok, _ = read_token(m, k)
         if tok is None:
             return None
         parts.append(f'{k}={tok}')
     return ','.join(parts)
 
 
+def shape_problem(m):
+    """The hypotheses of the theorems about a DECODED message, evaluated on the real object (the extracted predicates
+    coords_numeric / attr_reads_ok are evaluated on its token as well, reply field SHAPE): lat/lon absent, None or numbers;
+    msg_type an int; reading any attribute returns a value or raises TypeError / ValueError.  -> text or None"""
+    for a in ('lat', 'lon'):
+        try:
+            v = getattr(m, a, None)
+        except Exception as e:
+            return f'reading {a} raises {type(e).__name__}'
+        if not (v is None or isinstance(v, (int, float))):
+            return f'non-numeric {a}'
+    if not isinstance(m.msg_type, int):
+        return 'non-int msg_type'
+    for k in list(m.asdict()) + computed_names(m):
+        _, e = read_token(m, k)
+        if e is not None and not isinstance(e, (TypeError, ValueError)):
+            return f'reading {k} raises {type(e).__name__} (neither TypeError nor ValueError)'
+        if e is not None and type(e).__name__ not in KNOWN_EXN:
+            return f'reading {k} raises {type(e).__name__}, a class the model does not have'
+    return None
+
+
 def content_key(m):
-    return (type(m).__name__, repr(sorted(m.asdict().items(), key=lambda kv: kv[0])))
+    extra = repr(sorted(m._computed.items())) if isinstance(m, Synth) else ''
+    return (type(m).__name__, repr(sorted(m.asdict().items(), key=lambda kv: kv[0])) + extra)
 
 
 def num(x):
@@ -212,11 +286,13 @@ def cls_name(f):
 # the implementation, through its public API
 class Synth:
     """A message-like object of an arbitrary attribute shape (as the mock messages of tests/test_filters.py): used only for
-    the shapes no decoder output has (lat a number while lon is None, a coordinate attribute missing, a str coordinate),
-    which the model and the theorems cover as well."""
+    the shapes no decoder output has (lat a number while lon is None, a coordinate attribute missing, a str coordinate,
+    computed attributes whose getter raises TypeError / ValueError / something else), which the model and the theorems
+    cover as well.  Build with make_synth(): computed attributes are real Python properties of a per-object subclass."""
 
-    def __init__(self, msg_type, attrs):
+    def __init__(self, msg_type, attrs, computed=None):
         self._attrs = dict(attrs)
+        self._computed = dict(computed or {})       # name -> ('v', value) | ('x', exception class name)
         self.msg_type = msg_type
         for k, v in attrs.items():
             setattr(self, k, v)
@@ -230,16 +306,52 @@ class Synth:
         return self
 
     def __repr__(self):
-        return f'Synth({self.asdict()!r})'
+        comp = {k: (v[1] if v[0] == 'v' else f'<raises {v[1]}>') for k, v in self._computed.items()}
+        return f'Synth({self.asdict()!r}' + (f', properties={comp!r})' if comp else ')')
+
+
+SYNTH_EXN = {'TypeError': lambda: TypeError("'<=' not supported between instances of 'NoneType' and 'int'"),
+             'ValueError': lambda: ValueError('Communication State is only available for messages with radio field'),
+             'UnicodeDecodeError': lambda: UnicodeDecodeError('ascii', b'\xff', 0, 1, 'ordinal not in range(128)'),
+             'KeyError': lambda: KeyError('radio'), 'IndexError': lambda: IndexError('list index out of range'),
+             'AttributeError': lambda: AttributeError('no such attribute'),
+             'ZeroDivisionError': lambda: ZeroDivisionError('division by zero')}
+
+
+def _getter(spec):
+    if spec[0] == 'v':
+        return lambda self: spec[1]
+
+    def raiser(self):
+        raise SYNTH_EXN[spec[1]]()
+    return raiser
+
+
+def make_synth(msg_type, attrs, computed=None):
+    if not computed:
+        return Synth(msg_type, attrs)
+    cls = type('Synth', (Synth,), {name: property(_getter(tuple(spec))) for name, spec in computed.items()})
+    return cls(msg_type, attrs, {k: tuple(v) for k, v in computed.items()})
+
+
+def _val_json(v):
+    return v if v is None else 's:' + v if isinstance(v, str) else num(v)
+
+
+def _val_unjson(v):
+    return v if v is None else (v[2:] if isinstance(v, str) and v.startswith('s:') else unnum(v))
 
 
 def synth_json(o):
-    return [o.msg_type, {k: (v if v is None else 's:' + v if isinstance(v, str) else num(v)) for k, v in o._attrs.items()}]
+    j = [o.msg_type, {k: _val_json(v) for k, v in o._attrs.items()}]
+    if o._computed:
+        j.append({k: ['v', _val_json(v[1])] if v[0] == 'v' else ['x', v[1]] for k, v in o._computed.items()})
+    return j
 
 
 def synth_from_json(j):
-    return Synth(j[0], {k: (v if v is None else (v[2:] if isinstance(v, str) and v.startswith('s:') else unnum(v)))
-                        for k, v in j[1].items()})
+    comp = {k: ('v', _val_unjson(v[1])) if v[0] == 'v' else ('x', v[1]) for k, v in (j[2] if len(j) > 2 else {}).items()}
+    return make_synth(j[0], {k: _val_unjson(v) for k, v in j[1].items()}, comp)
 
 
 def src_json(src):
@@ -297,12 +409,15 @@ def decode_stream(lines):
 
 KNOWN_EXN = {'InvalidNMEAMessageException', 'InvalidNMEAChecksum', 'UnknownMessageException', 'MissingMultipartMessageException',
              'TooManyMessagesException', 'UnknownPartNoException', 'InvalidDataTypeException', 'NonPrintableCharacterException',
-             'MissingPayloadException', 'ValueError', 'IndexError', 'TypeError', 'KeyError', 'OverflowError', 'AttributeError',
+             'MissingPayloadException', 'ValueError', 'UnicodeDecodeError', 'IndexError', 'TypeError', 'KeyError', 'OverflowError', 'AttributeError',
              'ZeroDivisionError'}
 
 
 def position_of(m):
-    lat, lon = getattr(m, 'lat', None), getattr(m, 'lon', None)
+    try:
+        lat, lon = getattr(m, 'lat', None), getattr(m, 'lon', None)
+    except Exception:                                       # a synthetic object whose coordinate getter raises
+        return None
     if isinstance(lat, (int, float)) and isinstance(lon, (int, float)):
         return lat, lon
     return None
@@ -322,17 +437,17 @@ def indices_of(out_keys, in_keys):
 
 
 def parse_reply(reply):
-    """-> (model dict, spec tokens or None, utotal)"""
+    """-> (model dict, spec tokens or None, utotal, shape)"""
     if reply.startswith('ERROR'):
         raise RuntimeError('model driver: ' + reply)
-    a, b, c = [x.strip() for x in reply.split(' | ')]
+    a, b, c, d = [x.strip() for x in reply.split(' | ')]
     if a.startswith('RAISE '):
         model = {'raise': a[6:]}
     else:
         body, term = a[4:].rsplit(' END ', 1)
         model = {'out': [] if body == '-' else body.split(';'), 'end': term}
     spec = None if b == 'SPEC n/a' else ([] if b[5:] == '-' else b[5:].split(';'))
-    return model, spec, c.endswith('1')
+    return model, spec, c.endswith('1'), d.endswith('1')
 
 
 # ------------------------------------------------------------------------------------------------------------------
@@ -569,6 +684,20 @@ def build_pool(ctx, n_groups):
         for _ in range(2):
             add(payload(rng, t), 'random-full')
     while len(pool) < n_groups:
+        if rng.random() < 0.14:
+            # carriers of a communication state (computed attributes is_sotdma / is_itdma / communication_state_raw):
+            # complete (radio below / above the SOTDMA/ITDMA selector bit) and cut before / inside the radio field
+            t = rng.choice([9, 18, 26, 9, 18, 26, 1, 2, 3, 4, 11])
+            bits = payload(rng, t)
+            if t in (9, 18) and rng.random() < 0.5:
+                bits = bits[:148] + rng.choice('01') + bits[149:]
+            if rng.random() < 0.6:
+                cut = rng.choice([len(bits) - 20, len(bits) - 19, len(bits) - rng.randrange(1, 19), rng.randrange(38, len(bits)),
+                                  106, 40]) if t != 26 else rng.randrange(38, len(bits))
+                add(bits[:max(6, min(len(bits) - 1, cut))], 'commstate-truncated')
+            else:
+                add(bits, 'commstate-complete')
+            continue
         r = rng.random()
         t = rng.choice(ptypes)
         nom, lo, lw, la, aw, unit = POSITION_TYPES[t]
@@ -618,13 +747,15 @@ def float_neighbours(x):
     return [math.nextafter(x, -math.inf), x, math.nextafter(x, math.inf)]
 
 
-def gen_filter(rng, kind, msgs, names, anchors):
+def gen_filter(rng, kind, msgs, names, anchors, computed=None, comp_rate=0.15):
     from pyais.filter import haversine
     positions = [p for p in (position_of(m) for m in msgs if not isinstance(m, Exception)) if p]
     if kind == 'N':
         k = rng.choice([0, 1, 1, 1, 2, 2, 3])
         common = ['mmsi', 'msg_type', 'repeat', 'lat', 'lon', 'speed', 'course', 'heading', 'radio', 'second']
-        return ('N', [rng.choice(common) if rng.random() < 0.6 else rng.choice(names) for _ in range(k)])
+        comp = computed_list() if computed is None else computed
+        return ('N', [rng.choice(comp) if comp and rng.random() < comp_rate else rng.choice(common) if rng.random() < 0.6
+                      else rng.choice(names) for _ in range(k)])
     if kind == 'T':
         present = sorted({int(m.msg_type) for m in msgs if not isinstance(m, Exception)}) or [1]
         k = rng.choice([0, 1, 2, 3, 6, 12, 12])
@@ -727,7 +858,10 @@ def focused_chain(rng, rep, msgs, names, anchors, which):
 
 
 def pred_can_raise(f):
-    return f[0] == 'A' and f[1][0] == 'lt'
+    """May this user predicate raise on some message?  lt compares; nn / has / tr read an attribute, and reading a computed
+    attribute can raise (hasattr and getattr-with-default absorb AttributeError only)."""
+    return f[0] == 'A' and (f[1][0] == 'lt' or (f[1][0] in ('nn', 'has', 'tr')
+                                                and (f[1][1] in COMPUTED_SEEN or f[1][1].startswith('prop_'))))
 
 
 def orders(ctx, k):
@@ -754,14 +888,37 @@ def locate_raise(fs, items, item_lines):
     return 'chain', None, None, None
 
 
+def raising_attr(f, m):
+    """The attribute of NoneFilter f whose read raises on message m (first in evaluation order), or None."""
+    for a in f[1]:
+        try:
+            if getattr(m, a, None) is None:
+                return None                                    # all() stops here
+        except Exception:
+            return a
+    return None
+
+
 def report_raise(rep, pf, items, item_lines, exn_name, replay):
     """A chain of total filters over decodable messages raised: report it, shrunk to the one filter and the one message
     that raise when that pair reproduces the exception by itself."""
     comp, exn, i, f = locate_raise(pf, items, item_lines)
     if f is not None and exn == exn_name:
-        rep.violation({'entry': 'FilterChain.filter', 'component': comp, 'kind': f'foreign-exception:{exn_name}'},
+        sig = {'entry': 'FilterChain.filter', 'component': comp, 'kind': f'foreign-exception:{exn_name}'}
+        extra = ''
+        if f[0] == 'N':
+            a = raising_attr(f, items[i])
+            computed = a is not None and a in computed_names(items[i])
+            sig = {'entry': 'NoneFilter', 'component': 'computed-attribute' if computed else 'attribute',
+                   'kind': f'foreign-exception:{exn_name}'}
+            if a is not None:
+                _, e = read_token(items[i], a)
+                extra = f'; reading {"the computed attribute" if computed else "attribute"} {a!r} of this message raises ' \
+                        f'{type(e).__name__}: {e}' if e is not None else ''
+            f = ('N', [a]) if a is not None and run_impl([('N', [a])], item_lines[i])[1] == exn_name else f
+        rep.violation(sig,
                       f'list(FilterChain([{filter_text(f)}]).filter({src_text(item_lines[i])})) raises '
-                      f'{exn_name}; decoded message: {items[i]!r}  (found in {chain_text(pf)} over {len(items)} messages)',
+                      f'{exn_name}; decoded message: {items[i]!r}{extra}  (found in {chain_text(pf)} over {len(items)} messages)',
                       dict(src_json(item_lines[i]), filters=[list(f)]))
     else:
         rep.violation({'entry': 'FilterChain.filter', 'component': comp, 'kind': f'foreign-exception:{exn_name}'},
@@ -794,6 +951,9 @@ def check_case(ctx, groups, fs, perms, model=None, want_sample=False, quiet=Fals
             if tok is None:
                 rep.count('skipped:nan')
                 return 0
+            if isinstance(it, Synth) and any(v[0] == 'x' and v[1] not in KNOWN_EXN for v in it._computed.values()):
+                rep.count('skipped:unmodelled-exception')
+                return 0
             tokens.append(tok)
     in_keys = [None if isinstance(it, Exception) else content_key(it) for it in items]
     n_before = len(rep.violations)
@@ -818,15 +978,12 @@ def check_case(ctx, groups, fs, perms, model=None, want_sample=False, quiet=Fals
             else:
                 dist[key] = frac_token(h)
     coords_ok = True
-    for m in decodable:                                       # the shape every theorem assumes: lat/lon absent, None or numbers
-        for a in ('lat', 'lon'):
-            v = getattr(m, a, None)
-            if not (v is None or isinstance(v, (int, float))):
-                coords_ok = False
-                if not isinstance(m, Synth):
-                    rep.internal(f'decoded message with non-numeric {a}: {m!r}')
-        if not isinstance(m.msg_type, int):
-            rep.internal(f'decoded message with non-int msg_type: {m!r}')
+    for m in decodable:                                       # the shape every theorem assumes of a decoded message
+        why = shape_problem(m)
+        if why:
+            coords_ok = False
+            if not isinstance(m, Synth):
+                rep.internal(f'decoded message outside the hypotheses of the theorems ({why}): {m!r}')
     # the property speaks about decodable messages: the oracle judges only streams of really decoded messages; synthetic
     # shapes tie the model to the code (a difference there = the model no longer checks) but are no property violation
     judged = all_decoded and coords_ok and not any(isinstance(m, Synth) for m in decodable)
@@ -852,7 +1009,10 @@ def check_case(ctx, groups, fs, perms, model=None, want_sample=False, quiet=Fals
         if model is not None and not numeric_failed:
             req = 'c19 ' + (';'.join(filter_token(f) for f in pf) or '-') + ' ' + (';'.join(tokens) or '-') + ' ' \
                   + (';'.join(k + ',' + v for k, v in dist.items()) or '-')
-            m_view, spec, utotal = parse_reply(model.ask(req))
+            m_view, spec, utotal, shape = parse_reply(model.ask(req))
+            if shape != coords_ok:
+                rep.internal(f'the extracted shape predicates (coords_numeric && attr_reads_ok = {shape}) and the harness '
+                             f'({coords_ok}) differ on {hexlines}')
             if 'out' in m_view:
                 m_view = {'out': indices_of(m_view['out'], tokens), 'end': m_view['end']}
             if m_view != impl_view:
@@ -923,10 +1083,39 @@ def blame(model, fs, tokens, dist, i, item_lines=None):
 
 
 def names_universe(pool_msgs):
+    """Attribute names for NoneFilter and the attribute-reading user predicates: every field of every pool message, every
+    COMPUTED attribute of every pool message's class (by reflection, see computed_names), and names no message has."""
     names = set()
+    COMPUTED_SEEN.clear()
     for m in pool_msgs:
         names.update(m.asdict().keys())
-    return sorted(names) + ['lat', 'lon', 'lat', 'lon', 'speed', 'msg_type', 'foo', 'latitude', 'position']
+        for c in computed_names(m):
+            tok, e = read_token(m, c)
+            COMPUTED_SEEN.setdefault(c, set()).add(type(e).__name__ if e is not None else 'None' if tok == 'N' else 'value')
+    return sorted(names) + sorted(COMPUTED_SEEN) + ['lat', 'lon', 'lat', 'lon', 'speed', 'msg_type', 'foo', 'latitude', 'position']
+
+
+def computed_list():
+    return sorted(COMPUTED_SEEN)
+
+
+def computed_chain(rng, rep, msgs, names, anchors):
+    """A chain around a NoneFilter that lists computed attributes (alone, before and after attributes that are None on
+    some messages, so that all()'s short circuit decides whether a getter is reached), plus filters of the other classes."""
+    comp = computed_list()
+    if not comp:
+        return None
+    k = rng.choice([1, 1, 2, 3])
+    attrs = [rng.choice(comp) if (i == 0 or rng.random() < 0.4) else rng.choice(['mmsi', 'radio', 'course', 'raim', 'lat', 'foo'] + names)
+             for i in range(k)]
+    rng.shuffle(attrs)
+    fs = [('N', attrs)]
+    for _ in range(rng.choice([0, 0, 1, 1, 2])):
+        kd = rng.choice('TDGAN')
+        fs.append(gen_filter(rng, kd, msgs, names, anchors))
+    rng.shuffle(fs)
+    rep.count('chain:computed-attribute')
+    return fs
 
 
 def synthetic(ctx, names, anchors):
@@ -946,9 +1135,17 @@ def synthetic(ctx, names, anchors):
             return rng.choice(['abc', ''])
         return round(a + rng.uniform(-3, 3), 6)
 
-    for c in range(ctx.budget(70, 800)):
+    # property-like attributes: a getter that returns a value / None, raises TypeError or ValueError (what the repaired
+    # NoneFilter treats as "not present"), a subclass of ValueError, AttributeError (absent for getattr-with-default) or
+    # something else (KeyError, IndexError, ZeroDivisionError: still escapes -- only decodable real messages are in the
+    # property's scope, and none of them has such a getter)
+    PROPS = {'prop_t': ['TypeError'], 'prop_v': ['ValueError', 'UnicodeDecodeError'], 'prop_k': ['KeyError', 'IndexError', 'ZeroDivisionError'],
+             'prop_a': ['AttributeError'], 'prop_ok': []}
+    synth_names = ['lat', 'lon', 'speed', 'shipname', 'foo']
+    for c in range(ctx.budget(110, 1200)):
         objs = []
         a = rng.choice(anchors)
+        with_props = rng.random() < 0.6
         for _ in range(rng.choice([1, 3, 5, 8])):
             attrs = {}
             for name, base in (('lon', a[1]), ('lat', a[0])):
@@ -959,12 +1156,47 @@ def synthetic(ctx, names, anchors):
                 v = rng.choice(vals)
                 if v != 'absent':
                     attrs[name] = v
-            objs.append(Synth(rng.choice([0, 0, 28, 63, -1]) if rng.random() < 0.15 else rng.randrange(1, 28), attrs))
+            comp = {}
+            if with_props:
+                for name, excs in PROPS.items():
+                    r = rng.random()
+                    if r < 0.35:
+                        continue                                   # this object does not have the attribute
+                    if excs and r < 0.7:
+                        comp[name] = ('x', rng.choice(excs))
+                    else:
+                        comp[name] = ('v', rng.choice([None, True, False, 0, 7, 'x']))
+                if rng.random() < 0.06 and 'lat' not in attrs:      # a coordinate whose getter raises
+                    comp['lat'] = ('x', rng.choice(['TypeError', 'AttributeError']))
+            objs.append(make_synth(rng.choice([0, 0, 28, 63, -1]) if rng.random() < 0.15 else rng.randrange(1, 28), attrs, comp))
         k = rng.choice([1, 1, 2, 3])
-        kinds = [rng.choice('DGDGNAT') for _ in range(k)]
-        fs = [gen_filter(rng, kd, objs, ['lat', 'lon', 'speed', 'shipname', 'foo'], anchors) for kd in kinds]
-        rep.count('stream:synthetic-objects')
+        names_here = synth_names + (list(PROPS) * 3 if with_props else [])
+        kinds = [rng.choice('DGNANAT' if with_props else 'DGDGNAT') for _ in range(k)]
+        fs = [gen_filter(rng, kd, objs, names_here, anchors, computed=list(PROPS) if with_props else [], comp_rate=0.6) for kd in kinds]
+        rep.count('stream:synthetic-objects' + ('-with-properties' if with_props else ''))
         check_case(ctx, [{'lines': objs, 'kind': 'synthetic'}], fs, orders(ctx, k))
+
+
+WITNESS_BITS = '010010' + '0' * 100      # a type 18 report cut before the radio field
+
+
+def witness(ctx):
+    """The message of C19_nonefilter_unrepaired_raises (Model/Filter.v filter_truncated_type18): pyais must still decode
+    the recorded payload to the recorded description, and NoneFilter over each of its computed attributes -- alone, after a
+    present attribute, after a None attribute -- goes through the correspondence check and the oracle."""
+    rep = ctx.rep
+    lines = ais.bits_to_sentences(WITNESS_BITS)
+    items = decode_stream(lines)
+    tok = msg_token(items[0]) if len(items) == 1 and not isinstance(items[0], Exception) else repr(items)
+    if ctx.model is not None:
+        want = ctx.model.ask('c19witness')
+        if tok != want:
+            rep.disagree('H-filter', {'witness': WITNESS_BITS}, want, tok)
+    comp = [c for c in computed_names(items[0])] if tok and not isinstance(items[0], Exception) else []
+    for c in comp:
+        for attrs in ([c], ['mmsi', c], ['course', c], [c, 'course']):
+            rep.count('stream:witness')
+            check_case(ctx, [{'lines': lines, 'kind': 'witness'}], [('N', attrs)], [(0,)])
 
 
 def run(ctx):
@@ -974,6 +1206,15 @@ def run(ctx):
     for g in pool:
         pool_msgs.extend(m for m in decode_stream(g['lines']) if not isinstance(m, Exception))
     names = names_universe(pool_msgs)
+    comm_pool = [g for g in pool if g['kind'].startswith('commstate')]
+    for name, seen in sorted(COMPUTED_SEEN.items()):
+        rep.count('computed:' + name + ':' + '/'.join(sorted(seen)))
+    # generator self-check: the pool must hold computed attributes that evaluate and computed attributes whose read raises
+    if not any(o not in ('value', 'None') for seen in COMPUTED_SEEN.values() for o in seen):
+        rep.internal('generator self-check: no pool message has a computed attribute whose read raises '
+                     '(truncated type 9/18/26 reports missing?)')
+    if not any('value' in seen for seen in COMPUTED_SEEN.values()):
+        rep.internal('generator self-check: no pool message has a computed attribute that evaluates')
     bad_groups = malformed_groups(rng)
     n_cases = ctx.budget(520, 4000)
     bkinds = itertools.count()
@@ -986,8 +1227,16 @@ def run(ctx):
             rep.count('stream:malformed')
         else:
             rep.count('stream:all-decodable')
+        focus_computed = not malformed and rng.random() < 0.12
+        if focus_computed and comm_pool:                      # make sure carriers of a communication state are in the stream
+            for _ in range(rng.choice([1, 2, 3])):
+                groups.insert(rng.randrange(len(groups) + 1), rng.choice(comm_pool))
         msgs = decode_stream([ln for g in groups for ln in g['lines']])
-        fs = focused_chain(rng, rep, msgs, names, anchors, next(bkinds)) if rng.random() < 0.4 else None
+        fs = computed_chain(rng, rep, msgs, names, anchors) if focus_computed else None
+        if fs is None and rng.random() < 0.4:
+            fs = focused_chain(rng, rep, msgs, names, anchors, next(bkinds))
+            if fs is not None:
+                rep.count('chain:boundary-focused')
         if fs is None:
             k = rng.choice([1, 1, 2, 2, 3, 3, 4, 5])
             kinds = [rng.choice('NTDGA') for _ in range(k)]
@@ -995,15 +1244,14 @@ def run(ctx):
                 kinds[rng.randrange(k)] = rng.choice('DG')
             fs = [gen_filter(rng, kd, msgs, names, anchors) for kd in kinds]
             rep.count('chain:random')
-        else:
-            rep.count('chain:boundary-focused')
         check_case(ctx, groups, fs, orders(ctx, len(fs)), want_sample=(c % sample_every == 0))
     synthetic(ctx, names, anchors)
+    witness(ctx)
     # FilterChain([]) is rejected
     rep.case(('empty-chain',), kind='len0')
     impl = run_impl([], pool[0]['lines'])
     if ctx.model is not None:
-        m_view, _, _ = parse_reply(ctx.model.ask('c19 - ' + (msg_token(pool_msgs[0]) or '-') + ' -'))
+        m_view, _, _, _ = parse_reply(ctx.model.ask('c19 - ' + (msg_token(pool_msgs[0]) or '-') + ' -'))
         if m_view != {'raise': impl[1]} or impl[0] != 'RAISE':
             rep.disagree('H-filter', {'chain': 'FilterChain([])'}, m_view, impl)
     numeric(ctx, [p for p in (position_of(m) for m in pool_msgs) if p])
@@ -1013,6 +1261,8 @@ def run(ctx):
         rep.internal('generator self-check: fewer than 5% of the cases have both passing and rejected messages')
     if tot and rep.dist.get('msg:truncated-position-report', 0) == 0:
         rep.internal('generator self-check: no truncated position report generated')
+    if tot and (rep.dist.get('msg:commstate-truncated', 0) == 0 or rep.dist.get('chain:computed-attribute', 0) == 0):
+        rep.internal('generator self-check: no NoneFilter over computed attributes met a truncated communication-state carrier')
 
 
 def hunt(ctx):
@@ -1030,6 +1280,14 @@ def hunt(ctx):
             msgs = decode_stream([ln for g in groups for ln in g['lines']])
             fs = [gen_filter(rng, kd, msgs, names, anchors)]
             check_case(ctx, groups, fs, [(0,)])
+    comm_pool = [g for g in pool if g['kind'].startswith('commstate')]
+    for _ in range(ctx.budget(30, 150)):
+        groups = [rng.choice(comm_pool) for _ in range(4)] + [rng.choice(pool) for _ in range(4)]
+        rng.shuffle(groups)
+        msgs = decode_stream([ln for g in groups for ln in g['lines']])
+        fs = computed_chain(rng, rep, msgs, names, anchors)
+        if fs:
+            check_case(ctx, groups, fs, orders(ctx, len(fs)))
     for _ in range(ctx.budget(10, 100)):
         groups = [rng.choice(pool) for _ in range(10)]
         msgs = decode_stream([ln for g in groups for ln in g['lines']])
